@@ -20,6 +20,7 @@ type PathState struct {
 	block   *ssa.BasicBlock
 	idx     int
 	tracked map[ssa.Value]bool
+	marked  map[ssa.Value]bool // like tracked (flows through phis on the path) but says nothing about nil-ness
 	consts  map[ssa.Value]*ssa.Const
 	parent  *PathState
 	via     string
@@ -66,8 +67,75 @@ func (s *PathState) has(v ssa.Value, depth int) bool {
 }
 
 // ConstOf returns the constant a value is known to equal on this path.
+// learnNil records in st what taking a branch on cond (with the given truth) implies about the nil-ness of a value.
+func learnNil(st *PathState, cond ssa.Value, truth bool) {
+	for {
+		u, ok := cond.(*ssa.UnOp)
+		if !ok || u.Op != token.NOT {
+			break
+		}
+		cond, truth = u.X, !truth
+	}
+	b, ok := cond.(*ssa.BinOp)
+	if !ok || (b.Op != token.EQL && b.Op != token.NEQ) {
+		return
+	}
+	var x ssa.Value
+	switch {
+	case IsNilConst(b.Y):
+		x = b.X
+	case IsNilConst(b.X):
+		x = b.Y
+	default:
+		return
+	}
+	if _, isConst := x.(*ssa.Const); isConst || !IsErrorType(x.Type()) {
+		return // only error values: keeps the per-path environment small
+	}
+	isNil := (b.Op == token.EQL) == truth
+	if isNil {
+		st.consts[x] = ssa.NewConst(nil, x.Type())
+	} else if !st.tracked[x] {
+		st.consts[x] = nonNilMarker
+	}
+}
+
+// NonNil reports whether v is known to be non-nil on this path (tracked custody values, freshly boxed values, values
+// a branch on the path found non-nil, and phis that selected such a value).
+func (s *PathState) NonNil(v ssa.Value) bool {
+	if s == nil || v == nil {
+		return false
+	}
+	if _, boxed := v.(*ssa.MakeInterface); boxed {
+		return true
+	}
+	if s.Has(v) {
+		return true
+	}
+	c, ok := s.consts[v]
+	return ok && c == nonNilMarker
+}
+
 // nonNilMarker stands in the constant environment for "some non-nil value" (a freshly boxed error selected at a phi).
 var nonNilMarker = ssa.NewConst(constant.MakeString("!nil"), types.Typ[types.String])
+
+// Marked reports whether v is one of the query's Marked values or a phi that selected one on this path.
+func (s *PathState) Marked(v ssa.Value) bool {
+	for i := 0; i < 6 && v != nil; i++ {
+		if s.marked[v] {
+			return true
+		}
+		switch x := v.(type) {
+		case *ssa.ChangeInterface:
+			v = x.X
+		case *ssa.ChangeType:
+			v = x.X
+		default:
+			return false
+		}
+	}
+	return false
+}
 
 func (s *PathState) ConstOf(v ssa.Value) (*ssa.Const, bool) {
 	if c, ok := v.(*ssa.Const); ok {
@@ -81,6 +149,9 @@ func (s *PathState) sig() string {
 	var parts []string
 	for v := range s.tracked {
 		parts = append(parts, "t"+v.Name())
+	}
+	for v := range s.marked {
+		parts = append(parts, "m"+v.Name())
 	}
 	for v, c := range s.consts {
 		parts = append(parts, "c"+v.Name()+"="+c.String())
@@ -101,8 +172,9 @@ type PathQ struct {
 	SinkEdge   func(e Edge, st *PathState) bool
 	Cut        func(in ssa.Instruction, st *PathState) bool
 	CutEdge    func(e Edge, st *PathState) bool
-	NoFold     bool // disable branch folding on the tracked value
-	AllConsts  bool // record the constant selected for every phi (not only branch-relevant ones)
+	Marked     []ssa.Value // values whose flow through phis is followed without any nil-ness assumption (PathState.Marked)
+	NoFold     bool        // disable branch folding on the tracked value
+	AllConsts  bool        // record the constant selected for every phi (not only branch-relevant ones)
 	// TrackedNonNil: tracked values are known non-nil / non-empty (custody rules). Default true when Tracked != nil.
 }
 
@@ -117,10 +189,13 @@ func (q *PathQ) Find() (witness []string, found bool) {
 	seen := map[string]bool{}
 	var stack []*PathState
 	mk := func(b *ssa.BasicBlock, idx int, parent *PathState, via string) *PathState {
-		st := &PathState{block: b, idx: idx, tracked: map[ssa.Value]bool{}, consts: map[ssa.Value]*ssa.Const{}, parent: parent, via: via}
+		st := &PathState{block: b, idx: idx, tracked: map[ssa.Value]bool{}, marked: map[ssa.Value]bool{}, consts: map[ssa.Value]*ssa.Const{}, parent: parent, via: via}
 		if parent != nil {
 			for k := range parent.tracked {
 				st.tracked[k] = true
+			}
+			for k := range parent.marked {
+				st.marked[k] = true
 			}
 			for k, v := range parent.consts {
 				st.consts[k] = v
@@ -139,6 +214,9 @@ func (q *PathQ) Find() (witness []string, found bool) {
 	initTracked := func(st *PathState) {
 		for _, v := range q.Tracked {
 			st.tracked[v] = true
+		}
+		for _, v := range q.Marked {
+			st.marked[v] = true
 		}
 		for v, c := range q.Consts {
 			st.consts[v] = c
@@ -206,6 +284,12 @@ func (q *PathQ) Find() (witness []string, found bool) {
 				return append(q.render(st, nil), fmt.Sprintf("edge to block %d (%s)", s.Index, s.Comment)), true
 			}
 			ns := mk(s, 0, st, "")
+			// what the branch just taken says about nil-ness: `x != nil` / `x == nil`
+			if len(b.Succs) == 2 && b.Succs[0] != b.Succs[1] && !q.NoFold {
+				if ifi, ok := b.Instrs[len(b.Instrs)-1].(*ssa.If); ok {
+					learnNil(ns, ifi.Cond, s == b.Succs[0])
+				}
+			}
 			q.enter(ns, b)
 			push(ns)
 		}
@@ -230,6 +314,7 @@ func (q *PathQ) enter(st *PathState, pred *ssa.BasicBlock) {
 	type upd struct {
 		phi     *ssa.Phi
 		tracked bool
+		marked  bool
 		c       *ssa.Const
 	}
 	var upds []upd
@@ -240,6 +325,7 @@ func (q *PathQ) enter(st *PathState, pred *ssa.BasicBlock) {
 		}
 		op := phi.Edges[pi]
 		u := upd{phi: phi}
+		u.marked = st.Marked(op)
 		if st.Has(op) {
 			u.tracked = true
 		} else if c, ok := st.ConstOf(op); ok && (q.AllConsts || branchRelevant(phi)) {
@@ -252,6 +338,10 @@ func (q *PathQ) enter(st *PathState, pred *ssa.BasicBlock) {
 	for _, u := range upds {
 		delete(st.tracked, u.phi)
 		delete(st.consts, u.phi)
+		delete(st.marked, u.phi)
+		if u.marked {
+			st.marked[u.phi] = true
+		}
 		if u.tracked {
 			st.tracked[u.phi] = true
 		} else if u.c != nil {
@@ -510,7 +600,9 @@ func EdgeIn(e Edge, set []Edge) bool {
 func Returns(fn *ssa.Function) []*ssa.Return {
 	var out []*ssa.Return
 	Instrs(fn, func(in ssa.Instruction) {
-		if r, ok := in.(*ssa.Return); ok {
+		// the Recover block of a function with defers is entered only after a deferred call recovered a panic;
+		// no function of this module calls recover, so it is not a way the function returns
+		if r, ok := in.(*ssa.Return); ok && in.Block() != fn.Recover {
 			out = append(out, r)
 		}
 	})
@@ -571,6 +663,10 @@ func branchRelevant(phi *ssa.Phi) bool {
 			switch x := r.(type) {
 			case *ssa.If:
 				return true
+			case *ssa.Return:
+				if IsErrorType(v.Type()) {
+					return true // "which error does this path return" matters to success-return sinks
+				}
 			case *ssa.BinOp:
 				switch x.Op {
 				case token.EQL, token.NEQ, token.LSS, token.LEQ, token.GTR, token.GEQ:
